@@ -296,6 +296,9 @@ impl ForkServer {
         if !plan.stall.is_empty() {
             msg.push_str(&format!("STALL {}\n", plan.stall.iter().map(ToString::to_string).collect::<Vec<_>>().join(",")));
         }
+        if !plan.linger.is_empty() {
+            msg.push_str(&format!("LINGER {}\n", plan.linger.iter().map(ToString::to_string).collect::<Vec<_>>().join(",")));
+        }
         msg.push_str(&format!("LOG {}\nOUT {}\nERR {}\nCWD {}\n", log.display(), out.display(), err.display(), cwd.display()));
         for (k, v) in colour.env() {
             msg.push_str(&format!("ENV {k}={v}\n"));
@@ -436,6 +439,9 @@ pub fn launch_program(
     cmd.env("GRAMSIM_PID", plan.pid.to_string());
     if !plan.stall.is_empty() {
         cmd.env("GRAMSIM_STALL", plan.stall.iter().map(ToString::to_string).collect::<Vec<_>>().join(","));
+    }
+    if !plan.linger.is_empty() {
+        cmd.env("GRAMSIM_LINGER", plan.linger.iter().map(ToString::to_string).collect::<Vec<_>>().join(","));
     }
     let mem_cap = env.mem_cap;
     // SAFETY: only async-signal-safe calls (personality, prctl, setrlimit) between fork and exec.
